@@ -1,6 +1,8 @@
 //! Attribute (varying) types the rendering monitors are instantiated with.
 
+use re::math::angle::{rads, Angle};
 use re::math::color::{rgb, rgba, Color3f, Color4f};
+use re::math::point::{pt2, pt3, Point2, Point3};
 use re::math::vary::Vary;
 use re::math::vec::{vec2, vec3, Vec2, Vec3};
 use re::math::Lerp;
@@ -82,5 +84,45 @@ impl Attr for (f32, Vec3) {
     }
     fn comps(&self) -> [f32; MAXC] {
         [self.0, self.1 .0[0], self.1 .0[1], self.1 .0[2], 0.0]
+    }
+}
+impl Attr for Angle {
+    const N: usize = 1;
+    const NAME: &'static str = "Angle";
+    fn make(c: &[f32]) -> Self {
+        rads(c[0])
+    }
+    fn comps(&self) -> [f32; MAXC] {
+        [self.to_rads(), 0.0, 0.0, 0.0, 0.0]
+    }
+}
+impl Attr for Point3 {
+    const N: usize = 3;
+    const NAME: &'static str = "Point3";
+    fn make(c: &[f32]) -> Self {
+        pt3(c[0], c[1], c[2])
+    }
+    fn comps(&self) -> [f32; MAXC] {
+        [self.0[0], self.0[1], self.0[2], 0.0, 0.0]
+    }
+}
+impl Attr for ((Vec2, f32), Vec2) {
+    const N: usize = 5;
+    const NAME: &'static str = "((Vec2,f32),Vec2)";
+    fn make(c: &[f32]) -> Self {
+        ((vec2(c[0], c[1]), c[2]), vec2(c[3], c[4]))
+    }
+    fn comps(&self) -> [f32; MAXC] {
+        [self.0 .0 .0[0], self.0 .0 .0[1], self.0 .1, self.1 .0[0], self.1 .0[1]]
+    }
+}
+impl Attr for (Color3f, Point2) {
+    const N: usize = 5;
+    const NAME: &'static str = "(Color3f,Point2)";
+    fn make(c: &[f32]) -> Self {
+        (rgb(c[0], c[1], c[2]), pt2(c[3], c[4]))
+    }
+    fn comps(&self) -> [f32; MAXC] {
+        [self.0 .0[0], self.0 .0[1], self.0 .0[2], self.1 .0[0], self.1 .0[1]]
     }
 }
